@@ -1,5 +1,163 @@
-From KV Require Import Base.Prelude Base.Bytes Model.LogParse Corr.C13.
+(* C13 — log parsing reports exactly the tracked metrics, in order, never crashing.
+   Only the property theorems (closed by [exact]) and their assumption audit.
+
+   Reading guide.  [collect fmt ms fs content] is the model of CollectObservationLog on a file with bytes [content];
+   the regexp engine ([compiles], [matches]), time.Parse ([rfc3339], success flag) and json.Unmarshal ([decode]) are
+   universally quantified functions.  [spec_text] / [spec_json] are comprehensions over ALL lines of the file:
+   line by line, filter by filter, match by match (JSON: tracked name by tracked name), keeping the matches whose
+   trimmed first group is a tracked name, each with the trimmed second group and the line's timestamp, followed
+   by the objective-missing fallback. *)
+From KV Require Import Base.Prelude Base.Bytes Model.LogParse Proofs.LogParseP Corr.C13 Proofs.C13Monitor.
 Open Scope Z_scope.
-Theorem C13_placeholder : zero_time = zero_time.
-Proof. exact eq_refl. Qed.
-Print Assumptions C13_placeholder.
+
+(* The file is cut at every newline byte and nowhere else; this determines the list of lines. *)
+Theorem C13_lines : forall content,
+  join newline (split_lines content) = content /\ Forall (fun l => ~ In newline l) (split_lines content) /\
+  (forall ls, ls <> [] -> Forall (fun l => ~ In newline l) ls -> join newline ls = content -> ls = split_lines content).
+Proof. exact split_lines_spec. Qed.
+Print Assumptions C13_lines.
+
+(* TEXT: with at least the objective tracked and filters that are regular expressions, the collector returns exactly
+   the comprehension (so: every occurrence, nothing else, in order), for every file.  The only assumption on the
+   regexp engine is that captured groups are pieces of the line. *)
+Theorem C13_text_spec : forall filt df compiles matches rfc3339 decode ms fs content,
+  groups_substr filt matches -> ms <> [] -> forallb compiles (effective filt df fs) = true ->
+  collect filt df compiles matches rfc3339 decode TEXT ms fs content =
+  Ok (spec_text filt df matches rfc3339 ms fs (split_lines content)).
+Proof. exact collect_text_ok. Qed.
+Print Assumptions C13_text_spec.
+
+(* The pre-filter ("skip lines that contain no tracked name") never drops a line that has a match for a tracked name. *)
+Theorem C13_prefilter_sound : forall filt matches rfc3339 ms fs l x,
+  groups_substr filt matches -> In x (spec_line filt matches rfc3339 ms fs l) -> is_metric_line ms l = true.
+Proof. exact prefilter_keeps. Qed.
+Print Assumptions C13_prefilter_sound.
+
+(* JSON: if every non-empty line decodes, exactly the comprehension; if some non-empty line does not, the error
+   and no partial result.  (Per line the records follow the tracked-name list WITH multiplicity, see C13_json_dup_refuted.) *)
+Theorem C13_json_spec : forall filt df compiles matches rfc3339 decode ms fs content,
+  ms <> [] ->
+  (existsb (malformed decode) (split_lines content) = false /\
+   collect filt df compiles matches rfc3339 decode JSON ms fs content = Ok (spec_json rfc3339 decode ms (split_lines content))) \/
+  (existsb (malformed decode) (split_lines content) = true /\
+   collect filt df compiles matches rfc3339 decode JSON ms fs content = Err 1%nat).
+Proof. exact collect_json_total. Qed.
+Print Assumptions C13_json_spec.
+
+(* Known finding json-duplicate-metric: one JSON line, one occurrence per name, yet a record is reported twice. *)
+Theorem C13_json_dup_refuted :
+  exists (decode : str -> jline) ms content r,
+    length (split_lines content) = 1%nat /\
+    collect unit tt (fun _ => true) (fun _ _ => []) (fun _ => false) decode JSON ms [] content = Ok r /\ ~ NoDup r.
+Proof. exact json_dup_refuted. Qed.
+Print Assumptions C13_json_dup_refuted.
+
+(* The fallback: objective (head of the list) never reported -> exactly one record (zero time, objective,
+   "unavailable"); reported at least once -> the found records unchanged. *)
+Theorem C13_fallback : forall obj rest found,
+  ((forall x, In x found -> mname x <> obj) -> fallback (obj :: rest) found = [MLog (TsText zero_time) obj unavailable]) /\
+  ((exists x, In x found /\ mname x = obj) -> fallback (obj :: rest) found = found).
+Proof. intros obj rest found. split; [exact (fallback_missing obj rest found)|exact (fallback_present obj rest found)]. Qed.
+Print Assumptions C13_fallback.
+
+(* Timestamp of a TEXT line: the text before the first blank if time.Parse accepts it, the zero time otherwise
+   (no blank, or a first field that is not RFC3339); and every record of the line carries it. *)
+Theorem C13_timestamp_text : forall filt matches rfc3339 ms fs l,
+  ((exists a b, l = a ++ space :: b /\ ~ In space a /\ rfc3339 a = true /\ line_timestamp rfc3339 l = a) \/
+   ((forall a b, l = a ++ space :: b -> ~ In space a -> rfc3339 a = false) /\ line_timestamp rfc3339 l = zero_time)) /\
+  (forall x, In x (spec_line filt matches rfc3339 ms fs l) -> ts x = TsText (line_timestamp rfc3339 l) /\ In (mname x) ms).
+Proof. intros filt matches rfc3339 ms fs l. split; [exact (timestamp_text rfc3339 l)|exact (spec_line_ts filt matches rfc3339 ms fs l)]. Qed.
+Print Assumptions C13_timestamp_text.
+
+(* Integral epoch timestamps: the instant handed to time.Unix is the numeral's value (in ns), hence order is preserved. *)
+Theorem C13_epoch_integral : forall rfc3339 repr n,
+  read_numeral repr = Some n -> scale n = 0%nat -> in_int64 (num n) = true ->
+  epoch_instant repr = Some (num n * 10 ^ 9) /\
+  parse_timestamp rfc3339 (JNumber repr) = Some (TsUnix (num n * 10 ^ 9)) /\
+  same_instant n (num n * 10 ^ 9) = true.
+Proof. exact epoch_integral_numeral. Qed.
+Print Assumptions C13_epoch_integral.
+
+Theorem C13_epoch_integral_order : forall r1 r2 n1 n2 z1 z2,
+  read_numeral r1 = Some n1 -> read_numeral r2 = Some n2 -> scale n1 = 0%nat -> scale n2 = 0%nat ->
+  epoch_instant r1 = Some z1 -> epoch_instant r2 = Some z2 -> value_lt n1 n2 -> z1 < z2.
+Proof. exact epoch_integral_order. Qed.
+Print Assumptions C13_epoch_integral_order.
+
+(* What happens to a fractional numeral  ip.fp : the digits after the point are added as NANOSECONDS. *)
+Theorem C13_epoch_fraction : forall ip fp sec nsec,
+  ~ In dot ip -> ~ In dot fp -> parse_int64 ip = Some sec -> parse_int64 fp = Some nsec ->
+  epoch_instant (ip ++ dot :: fp) = Some (sec * 10 ^ 9 + nsec).
+Proof. exact epoch_fraction. Qed.
+Print Assumptions C13_epoch_fraction.
+
+(* Known finding json-epoch-fraction (F6).  The property's clause "numeric epoch timestamps denote the same instant
+   after conversion, so their order is preserved" fails:  1638422847.25 < 1638422847.5  but the instants are
+   ...847s + 25ns  >  ...847s + 5ns, and neither is the logged instant. *)
+Theorem C13_epoch_refuted :
+  exists r1 r2 n1 n2 z1 z2,
+    read_numeral r1 = Some n1 /\ read_numeral r2 = Some n2 /\ value_lt n1 n2 /\
+    epoch_instant r1 = Some z1 /\ epoch_instant r2 = Some z2 /\ z2 < z1 /\
+    same_instant n1 z1 = false /\ same_instant n2 z2 = false.
+Proof. exact epoch_refuted. Qed.
+Print Assumptions C13_epoch_refuted.
+
+(* Totality of the model (the run-time panics it knows about are explicit outcomes): with a non-empty tracked list
+   and filters that compile there is no Crash, for every format and every file. *)
+Theorem C13_total : forall filt df compiles matches rfc3339 decode fmt ms fs content,
+  ms <> [] -> forallb compiles (effective filt df fs) = true ->
+  is_crash (collect filt df compiles matches rfc3339 decode fmt ms fs content) = false.
+Proof. exact collect_total. Qed.
+Print Assumptions C13_total.
+
+(* The two crash sites, exactly: metrics[0] with an empty tracked list; a nil *Regexp (filter that does not compile)
+   used on the first TEXT line that passes the pre-filter. *)
+Theorem C13_crash_sites : forall filt df compiles matches rfc3339 decode fmt ms fs content s,
+  collect filt df compiles matches rfc3339 decode fmt ms fs content = Crash s ->
+  (s = 1%nat /\ ms = []) \/
+  (s = 2%nat /\ fmt = TEXT /\ forallb compiles (effective filt df fs) = false /\
+   existsb (is_metric_line ms) (split_lines content) = true).
+Proof. exact collect_crash_sites. Qed.
+Print Assumptions C13_crash_sites.
+
+Theorem C13_no_metrics_crash : forall filt df compiles matches rfc3339 decode fs content,
+  collect filt df compiles matches rfc3339 decode TEXT [] fs content = Crash 1%nat.
+Proof. exact collect_no_metrics_text. Qed.
+Print Assumptions C13_no_metrics_crash.
+
+(* The executable monitor that runs on implementation outputs accepts the model's output on D_ok:
+   regexp groups are pieces of the line; for JSON no tracked name is listed twice and every numeric timestamp is an
+   integral numeral (the complement of the two known-finding domains). *)
+Theorem C13_monitor_sound : forall filt df compiles matches rfc3339 decode fmt ms fs content,
+  groups_substr filt matches ->
+  (fmt = JSON -> NoDup ms /\ integral_timestamps decode (split_lines content)) ->
+  monitor filt df compiles matches rfc3339 decode fmt ms fs content
+          (attach_result (collect filt df compiles matches rfc3339 decode fmt ms fs content)) = true.
+Proof. exact monitor_model. Qed.
+Print Assumptions C13_monitor_sound.
+
+(* Non-vacuity: a concrete regexp oracle satisfying [groups_substr], a log with a timestamped line holding two
+   statements, a noise line that passes the pre-filter and a line without timestamp; names acc / accuracy overlap. *)
+Definition ex_line1 : str := B "2024-03-04T17:55:08Z loss=0.3 accuracy = .98".
+Definition ex_line3 : str := B "acc=1".
+Definition ex_matches (_ : unit) (l : str) : list (list str) :=
+  if str_eqb l ex_line1 then [[B "loss=0.3"; B "loss"; B "0.3"; B ".3"; []]; [B "accuracy = .98"; B "accuracy"; B ".98"; B ".98"; []]]
+  else if str_eqb l ex_line3 then [[B "acc=1"; B "acc"; B "1"; []; []]]
+  else [].
+
+Example C13_nonvacuous :
+  groups_substr unit ex_matches /\
+  collect unit tt (fun _ => true) ex_matches (fun s => str_eqb s (B "2024-03-04T17:55:08Z")) (fun _ => JBad) TEXT
+          [B "loss"; B "acc"] []
+          (B "2024-03-04T17:55:08Z loss=0.3 accuracy = .98" ++ [newline] ++ B "the loss is improving" ++ [newline] ++ B "acc=1")
+  = Ok [MLog (TsText (B "2024-03-04T17:55:08Z")) (B "loss") (B "0.3"); MLog (TsText zero_time) (B "acc") (B "1")].
+Proof.
+  split; [|vm_compute; reflexivity].
+  intros [] l kev g Hk Hg. unfold ex_matches in Hk.
+  destruct (str_eqb l ex_line1) eqn:E1.
+  - apply str_eqb_eq in E1. subst l. apply containsb_spec.
+    repeat (destruct Hk as [<-|Hk]; [repeat (destruct Hg as [<-|Hg]; [vm_compute; reflexivity|]); destruct Hg|]). destruct Hk.
+  - destruct (str_eqb l ex_line3) eqn:E3; [|destruct Hk].
+    apply str_eqb_eq in E3. subst l. apply containsb_spec.
+    repeat (destruct Hk as [<-|Hk]; [repeat (destruct Hg as [<-|Hg]; [vm_compute; reflexivity|]); destruct Hg|]). destruct Hk.
+Qed.
